@@ -8,22 +8,27 @@ import (
 	"io"
 	"log/slog"
 	"math/big"
+	"os"
 	"strconv"
 	"strings"
 	"sync"
 
 	"github.com/jdillenkofer/pithos/internal/http/server/authorization"
 	luaauth "github.com/jdillenkofer/pithos/internal/http/server/authorization/lua"
+	"github.com/jdillenkofer/pithos/internal/settings"
 )
 
 // C32 — client IP and scheme only from trusted proxies. Line format: see coq/Model/ClientIP.v.
 // Driver "C32" emits F0/F1 as trust token = model of the current code (since /repo 4284846 only a nil slice,
 // i.e. no configured entry, means "trust every peer"). "C32prefix" emits 0/1 = model of the pre-fix code
 // (historical; only useful against a tree with 4284846 reverted).
-type c32 struct{ fixed bool }
+// Settings-level lines start with S0 (Settings.merge as it is) or S1 (merge after fixes/C32-settings-merge-slices.patch,
+// driver "C32mergefixed": select it in checks/C32.json once that fix is applied).
+type c32 struct{ fixed, mergeFixed bool }
 
 func init() {
 	register("C32", c32{fixed: true})
+	register("C32mergefixed", c32{fixed: true, mergeFixed: true})
 	register("C32prefix", c32{})
 }
 
@@ -495,6 +500,87 @@ func c32BuildLine(trust bool, cfg []string, peer *string, scheme string, cf, xff
 	return strings.Join([]string{t, cfgTok, peerTok, tokBytes(scheme), c32HdrTok(cf, hasCF), c32HdrTok(xff, hasXFF), c32HdrTok(proto, hasProto), strconv.Itoa(kc), tb}, " ")
 }
 
+// c32SettingsLine turns an authorizer-level case into a settings-level one: trust flag and CIDR entries are
+// spread over command line and environment.
+func c32SettingsLine(r *Rng, mergeFixed bool, trust bool, cfg []string, peers []*big.Int, authLine string) string {
+	f := strings.Split(authLine, " ")
+	joinRaw := func(es []string) string {
+		parts := make([]string, 0, len(es)+2)
+		for _, e := range es {
+			parts = append(parts, c32Pad(r, e))
+			if r.Chance(8) {
+				parts = append(parts, r.Pick([]string{"", " ", "\t"}))
+			}
+		}
+		if r.Chance(8) {
+			parts = append([]string{""}, parts...)
+		}
+		return strings.Join(parts, ",")
+	}
+	var clean []string // entries the option syntax can carry
+	for _, e := range cfg {
+		if !strings.ContainsAny(e, ",\x00") {
+			clean = append(clean, e)
+		}
+	}
+	cli, env := "N", ""
+	switch k := r.Intn(20); {
+	case k < 7: // command line only
+		cli = "S" + tokBytes(joinRaw(clean))
+	case k < 12: // environment only
+		env = joinRaw(clean)
+	case k < 16: // both: the environment carries its own list
+		cli = "S" + tokBytes(joinRaw(clean))
+		var other []string
+		for i := 0; i <= r.Intn(2); i++ {
+			other = append(other, c32RandCIDRText(r, peers))
+		}
+		env = joinRaw(other)
+	case k < 18: // command line list, environment variable set but without entries
+		cli = "S" + tokBytes(joinRaw(clean))
+		env = r.Pick([]string{",", " ", " , ,"})
+	default: // nothing configured anywhere
+	}
+	if strings.ContainsRune(env, 0) {
+		env = ""
+	}
+	cliTrust, envTrust := "N", ""
+	switch k := r.Intn(10); {
+	case k < 4:
+		cliTrust = map[bool]string{true: "1", false: "0"}[trust]
+	case k < 7:
+		envTrust = map[bool]string{true: r.Pick([]string{"true", "1", "t", "TRUE", "T"}), false: r.Pick([]string{"false", "0", "no", "yes", "on"})}[trust]
+	case k < 9: // both, possibly contradicting
+		cliTrust = r.Pick([]string{"0", "1"})
+		envTrust = map[bool]string{true: "true", false: "false"}[trust]
+	default:
+	}
+	// CIDR table: every entry text any source can contribute
+	seen := map[string]bool{}
+	var tbl []string
+	raws := []string{env}
+	if cli != "N" {
+		raws = append(raws, untokBytes(cli[1:]))
+	}
+	for _, raw := range raws {
+		for _, e := range c32SplitEntries(raw) {
+			if !seen[e] {
+				seen[e] = true
+				tbl = append(tbl, tokBytes(e)+"="+c32CidrClaim(e))
+			}
+		}
+	}
+	ctbl := "_"
+	if len(tbl) > 0 {
+		ctbl = strings.Join(tbl, ",")
+	}
+	tag := "S0"
+	if mergeFixed {
+		tag = "S1"
+	}
+	return strings.Join([]string{tag, cliTrust, cli, tokBytes(envTrust), tokBytes(env), f[2], f[3], f[4], f[5], f[6], f[7], f[8], ctbl}, " ")
+}
+
 // ASCII white space as strings.TrimSpace sees it
 func c32Trim(s string) string {
 	return strings.Trim(s, " \t\n\v\f\r")
@@ -505,7 +591,9 @@ func (c c32) Gen(r *Rng, tier string, n int) []string {
 	defer func() {
 		if c.fixed {
 			for i := range cases {
-				cases[i] = "F" + cases[i]
+				if !strings.HasPrefix(cases[i], "S") {
+					cases[i] = "F" + cases[i]
+				}
 			}
 		}
 	}()
@@ -591,7 +679,11 @@ func (c c32) Gen(r *Rng, tier string, n int) []string {
 				proto = nil
 			}
 		}
-		cases = append(cases, c32BuildLine(trust, cfg, peer, scheme, cf, xff, proto, hasCF, hasXFF, hasProto, r.Intn(3)))
+		line := c32BuildLine(trust, cfg, peer, scheme, cf, xff, proto, hasCF, hasXFF, hasProto, r.Intn(3))
+		if r.Chance(45) {
+			line = c32SettingsLine(r, c.mergeFixed, trust, cfg, peers, line)
+		}
+		cases = append(cases, line)
 	}
 	return cases
 }
@@ -602,6 +694,39 @@ func (c c32) Gen(r *Rng, tier string, n int) []string {
 const c32Script = `function authorizeRequest(request)
   return request.httpRequest.clientIP == request.bucket and request.httpRequest.scheme == request.key
 end`
+
+const c32FindingCLI = "C32-cli-cidr-list-dropped"
+
+// independent reading of a comma separated list option: entries trimmed (ASCII white space), blanks dropped
+func c32SplitEntries(raw string) []string {
+	var out []string
+	for _, p := range strings.Split(raw, ",") {
+		if t := c32Trim(p); t != "" {
+			out = append(out, t)
+		}
+	}
+	return out
+}
+
+// the environment is process-global: LoadSettings runs under a lock with exactly the two variables of the case set
+var c32EnvMu sync.Mutex
+
+func c32LoadSettings(args []string, envTrust, envCidrs string) (*settings.Settings, error) {
+	c32EnvMu.Lock()
+	defer c32EnvMu.Unlock()
+	set := func(k, v string) {
+		if v == "" {
+			os.Unsetenv(k)
+		} else {
+			os.Setenv(k, v)
+		}
+	}
+	set("PITHOS_TRUST_FORWARDED_HEADERS", envTrust)
+	set("PITHOS_TRUSTED_PROXY_CIDRS", envCidrs)
+	defer os.Unsetenv("PITHOS_TRUST_FORWARDED_HEADERS")
+	defer os.Unsetenv("PITHOS_TRUSTED_PROXY_CIDRS")
+	return settings.LoadSettings(args)
+}
 
 func c32HeaderName(name string, kc int) string {
 	switch kc {
@@ -623,34 +748,73 @@ func c32ParseHdr(t string) ([]string, bool) {
 func (c32) Run(in string, scratch string) Result {
 	c32Quiet.Do(func() { slog.SetDefault(slog.New(slog.NewTextHandler(io.Discard, nil))) })
 	f := strings.Split(in, " ")
-	if len(f) != 9 {
+	settingsLine := len(f) > 0 && (f[0] == "S0" || f[0] == "S1")
+	if (settingsLine && len(f) != 13) || (!settingsLine && len(f) != 9) {
 		return Result{Out: "PARSE-ERROR", Tags: []string{"malformed"}}
 	}
-	trust := strings.TrimPrefix(f[0], "F") == "1"
-	var cfg []string
+	// trust / cfg : what the authorizer is constructed with;  oTrust / oCfg : what the ORACLE regards as the
+	// configured intent (independent reading of flags and environment; union of both sources' entries)
+	var trust, oTrust bool
+	var cfg, oCfg []string
+	var rest []string
+	var cliEntries, envEntries []string
+	if settingsLine {
+		var args []string
+		switch f[1] {
+		case "1":
+			args = append(args, "-trustForwardedHeaders")
+		case "0":
+			args = append(args, "-trustForwardedHeaders=false")
+		}
+		if f[2] != "N" {
+			raw := untokBytes(f[2][1:])
+			args = append(args, "-trustedProxyCIDRs="+raw)
+			cliEntries = c32SplitEntries(raw)
+		}
+		envTrust, envCidrs := untokBytes(f[3]), untokBytes(f[4])
+		envEntries = c32SplitEntries(envCidrs)
+		st, err := c32LoadSettings(args, envTrust, envCidrs)
+		if err != nil {
+			return Result{Out: "SETTINGS-ERROR", Oracle: "FAIL:" + err.Error(), Tags: []string{"setup-failed"}}
+		}
+		trust, cfg = st.TrustForwardedHeaders(), st.TrustedProxyCIDRs() // as cmd/pithos.go passes them on
+		switch lv := strings.ToLower(envTrust); {
+		case envTrust != "":
+			oTrust = lv == "1" || lv == "t" || lv == "true"
+		default:
+			oTrust = f[1] == "1"
+		}
+		oCfg = append(append([]string{}, cliEntries...), envEntries...)
+		rest = f[5:12]
+	} else {
+		trust = strings.TrimPrefix(f[0], "F") == "1"
+		if f[1] != "_" {
+			for _, e := range strings.Split(f[1], ",") {
+				cfg = append(cfg, untokBytes(e[:strings.Index(e, "=")]))
+			}
+		}
+		oTrust, oCfg = trust, cfg
+		rest = f[2:9]
+	}
 	var cfgParsed []c32Cidr
 	cfgValid := 0
-	if f[1] != "_" {
-		for _, e := range strings.Split(f[1], ",") {
-			txt := untokBytes(e[:strings.Index(e, "=")])
-			cfg = append(cfg, txt)
-			if c, ok := c32ParseCIDR(txt); ok {
-				cfgValid++
-				cfgParsed = append(cfgParsed, c)
-			}
+	for _, txt := range oCfg {
+		if c, ok := c32ParseCIDR(txt); ok {
+			cfgValid++
+			cfgParsed = append(cfgParsed, c)
 		}
 	}
 	var peer *string
-	if f[2] != "N" {
-		s := untokBytes(f[2][1:])
+	if rest[0] != "N" {
+		s := untokBytes(rest[0][1:])
 		peer = &s
 	}
-	scheme := untokBytes(f[3])
-	kc, _ := strconv.Atoi(f[7])
+	scheme := untokBytes(rest[1])
+	kc, _ := strconv.Atoi(rest[5])
 	headers := map[string][]string{}
-	cfv, hasCF := c32ParseHdr(f[4])
-	xffv, hasXFF := c32ParseHdr(f[5])
-	protov, hasProto := c32ParseHdr(f[6])
+	cfv, hasCF := c32ParseHdr(rest[2])
+	xffv, hasXFF := c32ParseHdr(rest[3])
+	protov, hasProto := c32ParseHdr(rest[4])
 	if hasCF {
 		headers[c32HeaderName("Cf-Connecting-Ip", kc)] = cfv
 	}
@@ -711,15 +875,15 @@ func (c32) Run(in string, scratch string) Result {
 	}
 	if differs {
 		switch {
-		case !trust:
+		case !oTrust:
 			failf("forwarded values used although forwarded headers are not trusted")
 		case peerNum == nil:
 			failf("forwarded values used although the peer address is unknown")
-		case len(cfg) > 0 && !inConfigured:
+		case len(oCfg) > 0 && !inConfigured:
 			failf("forwarded values used although the peer %s is in none of the configured trusted CIDRs", *peer)
 		}
 	}
-	if len(cfg) > 0 && cfgValid == 0 && differs {
+	if len(oCfg) > 0 && cfgValid == 0 && differs {
 		failf("a configured but entirely unusable CIDR list made the peer trusted")
 	}
 	if oracle == "OK" && ip != nil && differs && *ip != *peer {
@@ -745,15 +909,30 @@ func (c32) Run(in string, scratch string) Result {
 
 	// ---- tags (from the input) ----
 	var tags []string
-	if !trust {
+	if !oTrust {
 		tags = append(tags, "no-trust")
 	}
+	if settingsLine {
+		tags = append(tags, "settings")
+		if len(cliEntries) > 0 {
+			tags = append(tags, "cli-list")
+		}
+		if len(envEntries) > 0 {
+			tags = append(tags, "env-list")
+		}
+		// the command line's list is configured, the environment contributes no entry: the list is lost
+		if f[0] == "S0" && len(cliEntries) > 0 && len(envEntries) == 0 && oTrust && peerNum != nil {
+			tags = append(tags, "kf:"+c32FindingCLI)
+		}
+	} else {
+		tags = append(tags, "authorizer")
+	}
 	switch {
-	case len(cfg) == 0:
+	case len(oCfg) == 0:
 		tags = append(tags, "cfg-none")
 	case cfgValid == 0:
 		tags = append(tags, "cfg-all-invalid") // must trust nobody (pre-fix: trusted everyone; fixed by 4284846)
-	case cfgValid < len(cfg):
+	case cfgValid < len(oCfg):
 		tags = append(tags, "cfg-some-invalid")
 	default:
 		tags = append(tags, "cfg-valid")
